@@ -110,7 +110,8 @@ def run_op(mod, objs, st):
     elif op == 'SetAttr':
         setattr(objs[st['sector']], st['attr'], st['value'] if 'ref' not in st else objs[st['ref']])
     elif op == 'AddCashFlow':
-        objs[st['sector']].AddCashFlow(st['term'], st.get('eqn'), st.get('desc'), st.get('is_income', True))
+        e = st.get('eqn')
+        objs[st['sector']].AddCashFlow(st['term'], subst_names(e, objs) if e else e, st.get('desc'), st.get('is_income', True))
     else:
         raise BuildError('unknown op ' + op)
 
